@@ -19,7 +19,8 @@ func init() {
 		Title: "A refused Set changes nothing; targets and paths resolve as documented",
 		Explanation: "Decided: (1) the only store mutator reachable from Server.Set (statically resolved calls) is transaction.Store.Create; (2) every failing check — getTargetInfo, doDelete, doUpdateOrReplace, getTargetVersionOverrides, getTransactionStrategy, newTransaction, the group evaluation — makes Set return an error without reaching Create; the 'no operations' and size-limit tests dominate Create; " +
 			"(3) no discarded error: in the functions reachable from the RPC handlers no call binds its error result to _ while using another of its results; (4) addressing: the target of an operation is the prefix target when non-empty, else the operation path's own target; the stored path is the operation's path, or prefix path followed by the operation's path; each operation is recorded in the maps of the target returned for it." +
-			" Also: Get resolves targets prefix first (C13.16); a delete is recorded on the parent only for an exactly matched key leaf (C13.17).",
+			" Also: Get resolves targets prefix first (C13.16); a delete is recorded on the parent only for an exactly matched key leaf (C13.17)." +
+			" Also: C13.18 failed calls are honoured, C13.19 one path for key check and model lookup.",
 		Declined: []string{"correctness of FindPathFromModel / CheckKeyValue over all models", "what the plugin returns for JSON values"},
 		Run:      runC13,
 		Witness:  []WitnessTarget{{pkgNbGnmi, []string{"Server.Set", "getTargetInfo", "doUpdateOrReplace", "doDelete", "computeChange", "newTransaction"}}},
@@ -102,6 +103,8 @@ func runC13(c *engine.Ctx, tier string) {
 	// (4) addressing
 	addressing(c, sp, err)
 	getTargetPrecedence(c)
+	errorsHonoured(c)
+	keyCheckOnEffectivePath(c)
 	deleteLandsOnNamedPath(c)
 	targetResolution(c)
 	operationChecks(c)
@@ -1117,8 +1120,10 @@ func getTargetPrecedence(c *engine.Ctx) {
 // widening — a key leaf addressed directly is recorded as its list entry — needs the model lookup to have matched
 // the path EXACTLY: for a container the lookup answers with "something beneath the path", and when that is a key
 // leaf an unguarded cut records the parent of the named node.
-func deleteLandsOnNamedPath(c *engine.Ctx) {
-	o := c.Custom("C13.17", "K-guard(custom)", "doDelete: a recorded delete path that is a cut of the named path (path[:LastIndex(path, \"/\")]) ⇐ FindPathFromModel matched exactly ∧ the matched model path is a key ∧ the path does not end in ']'; every other recorded path is the named path itself",
+func deleteLandsOnNamedPath(c *engine.Ctx) { deleteLandsOnNamedPathAs(c, "C13.17") }
+
+func deleteLandsOnNamedPathAs(c *engine.Ctx, id string) {
+	o := c.Custom(id, "K-guard(custom)", "doDelete: a recorded delete path that is a cut of the named path (path[:LastIndex(path, \"/\")]) ⇐ FindPathFromModel matched exactly ∧ the matched model path is a key ∧ the path does not end in ']'; every other recorded path is the named path itself",
 		"each operation lands on exactly the target and path so named")
 	defer o.Done(2)
 	ps, err := c.A.PathsOpt(pkgNbGnmi, engine.PathOpts{Roots: []string{".Server.doDelete"}, NoInline: true})
@@ -1166,5 +1171,105 @@ func deleteLandsOnNamedPath(c *engine.Ctx) {
 	}
 	if whole > 0 {
 		o.Site("doDelete: every other delete recorded on the named path")
+	}
+}
+
+// errorsHonoured: C13.18 (seed C13-r52). In the functions Server.Set reaches, a branch taken because a call
+// failed (`if err != nil { … }` on an error the function obtained from a call) leaves the function or the loop
+// iteration: a refusal that is only logged lets the request go on with the zero value the failed call left behind
+// (an entity without the Configurable aspect becomes a target).
+func errorsHonoured(c *engine.Ctx) {
+	o := c.Custom("C13.18", "K-err(honoured)", "in the module functions statically reachable from Server.Set, the body of `if err != nil` (err of type error) contains a return, a branch statement or a panic, or assigns err",
+		"a Set that is refused before being logged creates no transaction: every failing check ends the request")
+	defer o.Done(10)
+	funcs, _ := c.P.Reach("northbound/gnmi/v2.Server.Set")
+	for _, fi := range c.P.Funcs {
+		if !funcs[fi.Name()] || !strings.HasPrefix(fi.Name(), "northbound/") {
+			continue
+		}
+		info := fi.Pkg.TypesInfo
+		ast.Inspect(fi.Decl.Body, func(n ast.Node) bool {
+			ifs, ok := n.(*ast.IfStmt)
+			if !ok {
+				return true
+			}
+			be, ok := ast.Unparen(ifs.Cond).(*ast.BinaryExpr)
+			if !ok || be.Op != token.NEQ {
+				return true
+			}
+			id, ok := ast.Unparen(be.X).(*ast.Ident)
+			if !ok || types.ExprString(be.Y) != "nil" {
+				return true
+			}
+			if t := info.TypeOf(id); t == nil || !isErr(t) {
+				return true
+			}
+			o.Site("")
+			o.Eval(1)
+			leaves := false
+			ast.Inspect(ifs.Body, func(m ast.Node) bool {
+				switch x := m.(type) {
+				case *ast.ReturnStmt, *ast.BranchStmt:
+					leaves = true
+				case *ast.CallExpr:
+					if f, ok := x.Fun.(*ast.Ident); ok && f.Name == "panic" {
+						leaves = true
+					}
+				case *ast.AssignStmt:
+					for _, l := range x.Lhs {
+						if lid, ok := l.(*ast.Ident); ok && info.Uses[lid] == info.Uses[id] && info.Uses[id] != nil {
+							leaves = true // the error is replaced (classified, wrapped) and handled further down
+						}
+					}
+				}
+				return !leaves
+			})
+			if !leaves {
+				o.Fail(&engine.Violation{Key: fi.Name() + "|failed call only noted", Pos: c.P.Pos(ifs.Pos()), Func: fi.Name(),
+					Msg: "the branch for a failed call (`" + types.ExprString(ifs.Cond) + "`) neither returns nor leaves the iteration: the request goes on with what the failed call left behind"})
+			}
+			return true
+		})
+	}
+}
+
+// keyCheckOnEffectivePath: C13.19 (seed C13-r51). The key-leaf check, the model lookup and the stored path of an
+// update all speak about ONE path: the effective one (prefix followed by the operation's own path). A check made
+// on the relative path sees no list key when the prefix carries the entry, and accepts a key leaf that contradicts it.
+func keyCheckOnEffectivePath(c *engine.Ctx) {
+	o := c.Custom("C13.19", "K-dataflow(same path)", "doUpdateOrReplace: the path given to pathutils.CheckKeyValue is the path given to pathutils.FindPathFromModel on the same path of the function",
+		"a list-key leaf whose value contradicts its key is refused, wherever the request puts the key (prefix or path)")
+	defer o.Done(1)
+	ps, err := c.A.PathsOpt(pkgNbGnmi, engine.PathOpts{Roots: []string{".Server.doUpdateOrReplace"}, NoInline: true})
+	if err != nil {
+		o.Undecided("doUpdateOrReplace", err.Error())
+		return
+	}
+	reported := false
+	for _, p := range ps {
+		find, check := "", ""
+		var pos token.Pos
+		for i := range p.Events {
+			e := &p.Events[i]
+			if e.Kind != engine.EvCall || len(e.Args) == 0 {
+				continue
+			}
+			switch e.CalleeName {
+			case "utils/path.FindPathFromModel":
+				find = e.Args[0]
+			case "utils/path.CheckKeyValue":
+				check, pos = e.Args[0], e.Pos
+			}
+		}
+		if check == "" {
+			continue
+		}
+		o.Site(c.P.Pos(pos) + " CheckKeyValue")
+		o.Eval(1)
+		if find != "" && check != find && !reported {
+			reported = true
+			o.Fail(&engine.Violation{Key: "Server.doUpdateOrReplace|key check on another path than the model lookup", Pos: c.P.Pos(pos), Func: p.Root.Name(),
+				Msg: "CheckKeyValue is given " + c.Render(check) + " while the model lookup (and the stored path) use " + c.Render(find) + ": a key carried by the prefix is not held against the key leaf"})
+		}
 	}
 }
